@@ -99,7 +99,7 @@ class Harness:
         self.K = max_delay_steps if max_delay_steps is not None else delay_steps
         delay = None if delay_steps is None else self.K * dt
         g = torch.Generator().manual_seed(seed)
-        self.conn = fac.make_connection(conn_kind, dt, syn=syn, B=B, delay=delay, nin=3, nout=2, conv=(4, 4, 1, 2, 2))
+        self.conn = fac.make_connection(conn_kind, dt, syn=syn, B=B, delay=delay, nin=3, nout=2, conv=(4, 4, 2, 2, 2))   # two input channels: the receptive axis order matters
         fac.randomize(self.conn, g, delay_steps=delay_steps, dt=dt)
         self.neuron = ExactNeuron(self.conn.outshape, dt, rest_v=-60.0, thresh_v=-50.0, batch_size=B)
         self.layer = neural.Serial(self.conn, self.neuron)
